@@ -1437,4 +1437,184 @@ theorem createStream_sstep (s : State) (hs : SStruct s) (c : Coins) (rs : List R
                     show _ ≤ amt (s.bank.get streamerAddr) i
                     omega
 
+
+theorem terminateStream_sstep (s : State) (hs : SStruct s) (id : Nat) : SStep s (terminateStream s id).2 := by
+  unfold terminateStream
+  cases hg : getStream s id with
+  | none => exact SStep.refl hs
+  | some st =>
+    simp only
+    split
+    · exact SStep.refl hs
+    · by_cases hact : st.isActive s.now = true
+      · simp only [hact, if_true]
+        cases hd : Refs.del s.active st.start st.id with
+        | none => exact SStep.refl hs
+        | some r =>
+          simp only
+          cases hf : Refs.add s.finished st.start st.id with
+          | none => exact SStep.refl hs
+          | some f =>
+            simp only
+            obtain ⟨r1, r2, _⟩ := remove_active s hs _ _ r f hd
+            exact ⟨r1, StreamsMono.refl _, fun hsol _ i => by have := r2 i; have := hsol i; show owedL _ i ≤ amt (s.bank.get streamerAddr) i; omega⟩
+      · have hact' : st.isActive s.now = false := by simpa using hact
+        simp only [hact', Bool.false_eq_true, if_false]
+        cases hd : Refs.del s.upcoming st.start st.id with
+        | none => exact SStep.refl hs
+        | some r =>
+          simp only
+          cases hf : Refs.add s.finished st.start st.id with
+          | none => exact SStep.refl hs
+          | some f =>
+            simp only
+            obtain ⟨r1, r2, _⟩ := remove_upcoming s hs _ _ r hd
+            have hfr : SStep { s with upcoming := r } { s with upcoming := r, finished := f } :=
+              SStep.of_frame r1 rfl rfl rfl (fun _ => Nat.le_refl _)
+            exact SStep.trans ⟨r1, StreamsMono.refl _, fun hsol _ i => by have := r2 i; have := hsol i; show owedL _ i ≤ amt (s.bank.get streamerAddr) i; omega⟩ hfr
+
+theorem replaceDistr_sstep (s : State) (hs : SStruct s) (id : Nat) (rs : List Rec) : SStep s (replaceDistr s id rs).2 := by
+  unfold replaceDistr
+  cases hg : getStream s id with
+  | none => exact SStep.refl hs
+  | some st =>
+    simp only
+    split
+    · exact SStep.refl hs
+    · split
+      · exact SStep.refl hs
+      · split
+        · exact SStep.refl hs
+        · rw [getStream_eq] at hg
+          obtain ⟨_, _, _, hid, _⟩ := getS_some hs.sid hg
+          obtain ⟨w1, w2, w3⟩ := write_same s hs st { st with recs := rs, totalWeight := totalWeightOf rs } (by rw [hid]; exact hg) rfl rfl
+          exact ⟨w1, w2, fun hsol _ i => by rw [w3 i]; exact hsol i⟩
+
+/-- module accounts do not sign messages (streamer side) -/
+def Op.wfS : Op → Prop
+  | .createGauge o _ _ _ _ _ _ _ => o ≠ streamerAddr
+  | .addToGauge o _ _ => o ≠ streamerAddr
+  | _ => True
+
+instance (op : Op) : Decidable op.wfS := by
+  cases op <;> (unfold Op.wfS; infer_instance)
+
+theorem send_keeps_streamer {b b' : Bank} {o : Nat} {c : Coins} (h : b.send o incAddr c = some b') (h1 : o ≠ incAddr) (h2 : o ≠ streamerAddr)
+    (i : Nat) : amt (b'.get streamerAddr) i = amt (b.get streamerAddr) i := by
+  obtain ⟨_, sb⟩ := Bank.send_some h h1
+  have := sb streamerAddr i
+  rw [if_neg (fun x => h2 x.symm), if_neg (by decide)] at this
+  exact this
+
+theorem step_sstep (s : State) (op : Op) (hg : GInv s) (hs : SStruct s) (hw : op.wf) (hw2 : op.wfS) : SStep s (step s op).2 := by
+  unfold step
+  split
+  · exact SStep.refl hs
+  · cases op with
+    | begin dt => exact beginBlock_sstep s dt hg hs
+    | end_ =>
+      simp only
+      cases h : streamerEndBlock s with
+      | ok s' =>
+        obtain ⟨a, b, c⟩ := strDistribute_streams _ _ _ _ _ _ hg hs (activeStreams_good s hs) h
+        exact ⟨a, b, c⟩
+      | error e => exact SStep.of_frame (s' := { s with halted := true }) hs rfl rfl rfl (fun _ => Nat.le_refl _)
+    | setMaxIter n => exact SStep.of_frame (s' := { s with maxIter := n }) hs rfl rfl rfl (fun _ => Nat.le_refl _)
+    | fund a c =>
+      refine SStep.of_frame (s' := { s with bank := s.bank.credit a c }) hs rfl rfl rfl ?_
+      intro i
+      show _ ≤ amt ((s.bank.credit a c).get streamerAddr) i
+      rw [Bank.get_credit]
+      by_cases hh : streamerAddr = a
+      · rw [if_pos hh, ← hh]; omega
+      · rw [if_neg hh]; omega
+    | locks ls => exact SStep.of_frame (s' := { s with locks := ls }) hs rfl rfl rfl (fun _ => Nat.le_refl _)
+    | rollapp r o l => exact SStep.of_frame (s' := { s with rollapps := setRollapp s.rollapps r ⟨true, o, l⟩ }) hs rfl rfl rfl (fun _ => Nat.le_refl _)
+    | rollappGauge r =>
+      simp only
+      unfold createRollappGauge
+      cases hr : s.rollapps[r]? with
+      | none => exact SStep.refl hs
+      | some ra =>
+        simp only
+        split
+        · exact SStep.refl hs
+        · exact SStep.of_frame hs rfl rfl rfl (fun _ => Nat.le_refl _)
+    | createGauge o p d du hsup c st n =>
+      simp only
+      unfold createGauge
+      split
+      · exact SStep.refl hs
+      · split
+        · exact SStep.refl hs
+        · split
+          · exact SStep.refl hs
+          · cases hsend : s.bank.send o incAddr c with
+            | none => exact SStep.refl hs
+            | some b =>
+              simp only
+              refine SStep.of_frame hs rfl rfl rfl ?_
+              intro i
+              have := send_keeps_streamer hsend hw hw2 i
+              simp only; omega
+    | addToGauge o gid c =>
+      simp only
+      unfold addToGauge
+      split
+      · exact SStep.refl hs
+      · cases hgg : getGauge s gid with
+        | none => exact SStep.refl hs
+        | some g =>
+          simp only
+          split
+          · exact SStep.refl hs
+          · cases hsend : s.bank.send o incAddr c with
+            | none => exact SStep.refl hs
+            | some b =>
+              simp only
+              refine SStep.of_frame (s' := setGauge { s with bank := b } { g with coins := Coins.add g.coins c }) hs rfl rfl rfl ?_
+              intro i
+              have := send_keeps_streamer hsend hw hw2 i
+              show _ ≤ amt (b.get streamerAddr) i
+              omega
+    | createStream c rs st e n => exact createStream_sstep s hs c rs st e n
+    | terminateStream id => exact terminateStream_sstep s hs id
+    | replaceDistr id rs => exact replaceDistr_sstep s hs id rs
+
+/-- along every history: the structural invariant holds and streams only grow -/
+theorem run_struct_mono : ∀ (ops : List Op) (s : State), GInv s → SStruct s → (∀ op ∈ ops, op.wf ∧ op.wfS) →
+    SStruct (run s ops) ∧ StreamsMono s.streams (run s ops).streams := by
+  intro ops
+  induction ops with
+  | nil => intro s _ hs _; exact ⟨hs, StreamsMono.refl _⟩
+  | cons op rest ih =>
+    intro s hg hs hw
+    unfold run
+    obtain ⟨w1, w2⟩ := hw op List.mem_cons_self
+    have st := step_sstep s op hg hs w1 w2
+    obtain ⟨a, b⟩ := ih _ (step_ginv s op hg w1) st.struct (fun o ho => hw o (List.mem_cons_of_mem _ ho))
+    exact ⟨a, StreamsMono.trans st.mono b⟩
+
+/-- **if at the end no stream has handed out more than its coins, the streamer account covers all open streams** -/
+theorem run_solvent : ∀ (ops : List Op) (s : State), GInv s → SStruct s → Solv s → (∀ op ∈ ops, op.wf ∧ op.wfS) →
+    NoOver (run s ops).streams → Solv (run s ops) := by
+  intro ops
+  induction ops with
+  | nil => intro s _ _ h _ _; exact h
+  | cons op rest ih =>
+    intro s hg hs hsol hw hno
+    unfold run at hno ⊢
+    obtain ⟨w1, w2⟩ := hw op List.mem_cons_self
+    have st := step_sstep s op hg hs w1 w2
+    have hg1 := step_ginv s op hg w1
+    have hw' : ∀ o ∈ rest, o.wf ∧ o.wfS := fun o ho => hw o (List.mem_cons_of_mem _ ho)
+    obtain ⟨_, m⟩ := run_struct_mono rest _ hg1 st.struct hw'
+    exact ih _ hg1 st.struct (st.solv hsol (NoOver_of_mono m hno)) hw' hno
+
+theorem init_sstruct (now mi : Nat) : SStruct (init now mi) :=
+  ⟨by intro k hk; simp [init] at hk, by intro id hid; simp [init, openIds, Refs.ids] at hid, by simp [init, openIds, Refs.ids]⟩
+
+theorem init_solv (now mi : Nat) : Solv (init now mi) := by
+  intro i; simp [init, owedL, openIds, Refs.ids]
+
 end DymVerif.Incent
